@@ -352,6 +352,24 @@ def run_case(case, R):
         if any(STYPE[n["kind"]] is bool for _, n in fields) and depth >= 2 and argv and len(effective) < len(fields):
             R.nontrivial = True
 
+        # ---- (c1) the same parsed arguments applied once more, to a fresh configuration and without an ignore list: what was
+        # ignored the first time is supplied all the same and is applied now
+        all_verdicts = {p: refmodel.ref(node, val, world.ctx) for p, (node, val) in supplied.items()}
+        if ignored & set(supplied) and all(v[0] == A for v in all_verdicts.values()):
+            R.label("override:same-arguments-applied-again")
+            again = world.schema(key_filename=keyfile)
+            try:
+                cc.cmdline_args_override(again, ns)
+                err2 = None
+            except Exception as exc:
+                err2 = exc
+            if R.check(err2 is None, "override", "again:raises", lambda: "the second application of the parsed arguments %r raised %r" % (argv, err2)):
+                for p, (node, val) in supplied.items():
+                    got = worlds.get_path(again, p)
+                    R.check(ops.read_matches(node, got, all_verdicts[p]) and cc.is_value_defined(again, ".".join(p)), "override", "again:value",
+                            lambda: "parsed arguments %r were applied with ignore=%r and then again without: %s reads %r, reference normal form %r" % (
+                                argv, ignore, ".".join(p), got, all_verdicts[p][1]))
+
         # ---- (c2) an option supplied for a field whose environment variable is set: the override is an assignment like any other
         saved_env = {k: os.environ.pop(k) for k in list(os.environ) if k.startswith("CCV16")}
         try:
@@ -369,6 +387,16 @@ def run_case(case, R):
             R.label("override:env-bound-fields")
             R.check(got_env == (9090, "cli.example", True), "override", "env-bound",
                     lambda: "options supplied for fields whose environment variables are set: fields read %r, want (9090, 'cli.example', True)" % (got_env,))
+            # one set of parsed arguments serves several configurations, each with an ignore list of its own (in any order)
+            ns2 = eparser.parse_args(["--port=7070", "--db-host=again.example", "--no-db-debug"])
+            for ign in ("db.host", ["port", "db.debug"], ["db.host", "port", "db.debug"], None, "port", []):
+                c = es()
+                cc.cmdline_args_override(c, ns2, ignore=ign)
+                names = [ign] if isinstance(ign, str) else list(ign or [])
+                want = (8080 if "port" in names else 7070, "env.example" if "db.host" in names else "again.example", False)
+                got2 = (c.port, c.db.host, c.db.debug)
+                R.check(got2 == want, "override", "shared-arguments", lambda: "parsed arguments reused for another configuration with ignore=%r: fields read %r, want %r" % (ign, got2, want))
+                R.check(cc.is_value_defined(c, "db.debug") == ("db.debug" not in names), "override", "shared-arguments:defined", lambda: "ignore=%r: db.debug user-defined=%r" % (ign, cc.is_value_defined(c, "db.debug")))
         except Exception as exc:
             R.fail("override", "env-bound:raises", "override of env-bound fields raised %r" % (exc,))
         finally:
